@@ -28,6 +28,19 @@ PROPS = {
         'level_note': 'Trusted: Coq kernel + vm_compute, the harness. The wire clause (bare ACK / nothing on the wire) is covered by the datagram connection model of C05.',
         'explanation': 'Theorems: IsNoResponseCode model equals the RFC 7967 class/bit decision for every code and every value (unbounded), only bits 1,3,4 matter, other classes always pass, the response writer refuses exactly per the first No-Response option. Correspondence: exhaustive bit tables for all 256 codes x values 0..63, boundary/random 32-bit values, 16-bit codes, ResponseWriter.SetResponse over generated request option lists.',
     },
+    'C16': {
+        'run_vo': 'Limiter/Run.vo', 'props_vo': 'Properties/C16.vo', 'level': 'proof',
+        'classes': {1: 'endpoint-limit-exceeded', 2: 'total-limit-exceeded', 3: 'admitted-out-of-arrival-order',
+                    4: 'cancelled-waiter-not-neutral', 5: 'not-idle-after-all-returned', 6: 'not-admitted-when-idle',
+                    7: 'panic-hang-or-unknown-result', 8: 'waits-although-slot-free'},
+        'trusted': ['golang.org/x/sync/semaphore.Weighted is modelled from its source (v0.11.0) as a FIFO counting semaphore; pkg/sync.Map callbacks are atomic sections (write lock)',
+                    'harness reads goroutine wait states from runtime.Stack(all) and private tables with reflect+unsafe (no hook in /repo)'],
+        'assumptions': ['every request goroutine executes Do/DoObserve once; the wrapped function returns only when the environment lets it (Finish)',
+                        'Go select with several ready channels may take any of them: both outcomes are actions of the model'],
+        'level_text': 'TODO',
+        'level_note': 'TODO',
+        'explanation': 'TODO',
+    },
 }
 
 NOT_APPLICABLE = {}
